@@ -56,7 +56,7 @@ def run(m, chk):
         "control points and weights of both operands (DEP-MUST field coverage), every refined copy is read (no dead refinement), operands are not modified, "
         "__ne__ is the negation of __eq__, the non-curve ⇒ False guard comes first. The 1e-9 semantics and invariance under elevation are not decided."
     )
-    chk.decides = ["SPANS-UNION (the Gram matrices behind every refinement / projection are integrated span by span of the union of both knot sets)", "SWAP-SYMMETRIC (the product knot vector treats both operands alike)", "DEP-MUST field coverage", "DEAD-REFINEMENT", "PURE", "__ne__ = not __eq__", "type guard first", 'REFINE-BOTH (comparison only after refinement or for equal knot vectors)', 'TOL-HOMOG (the quantity compared with the tolerance literal is a distance: degree 1 in the point difference, or the literal is the matching power of 1e-9)']
+    chk.decides = ["INTERP-COUNT (every refit that interpolates at the knots does so under a test of the degree: the refinement behind == never asks for more interpolation nodes than control points)", "SPANS-UNION (the Gram matrices behind every refinement / projection are integrated span by span of the union of both knot sets)", "SWAP-SYMMETRIC (the product knot vector treats both operands alike)", "DEP-MUST field coverage", "DEAD-REFINEMENT", "PURE", "__ne__ = not __eq__", "type guard first", 'REFINE-BOTH (comparison only after refinement or for equal knot vectors)', 'TOL-HOMOG (the quantity compared with the tolerance literal is a distance: degree 1 in the point difference, or the literal is the matching power of 1e-9)']
     chk.not_decided = ["which norm the tolerance applies to", "invariance of the answer under knot insertion / degree elevation as values"]
     ctx = r.root(EQ)
     fi = ctx.fi
@@ -89,6 +89,9 @@ def run(m, chk):
                    func=EQ, construct=f"{who}.{f} not consulted" if who == "self" else f"other.{f} not consulted")
     # 2. dead refinement
     dead_refinement(r, chk, EQ)
+    from .extra import interp_count
+
+    interp_count(r, chk)
     from .extra import refine_both
 
     refine_both(r, chk, EQ)
